@@ -50,7 +50,16 @@ func c19TimeoutTok(rng *rand.Rand, strat string, timeout bool) string {
 // RaceCase: the free-running rounds are also executed under the race detector (./check, race pass)
 func (c19) RaceCase(c Case) bool { return len(c.Ops) == 1 && c.Ops[0][0] == "free" }
 
-func (c19) Gen(rng *rand.Rand, tier string, idx int) Case {
+func (p c19) Gen(rng *rand.Rand, tier string, idx int) Case {
+	c := p.gen0(rng, tier, idx)
+	if idx%6 == 5 {
+		c.Cfg = append(c.Cfg, []string{"badfirst", "1"})
+		c.Stat = append(c.Stat, "execute-failed-before-the-real-one")
+	}
+	return c
+}
+
+func (c19) gen0(rng *rand.Rand, tier string, idx int) Case {
 	var c Case
 	strat := []string{"drop", "block", "expand", "expand", "expand"}[rng.Intn(5)]
 	if idx%8 == 0 {
@@ -490,6 +499,7 @@ func c19free(c Case, rowsPer, slow int) ([][]string, string) {
 	nprod := c19cfgInt(c, "nprod", 1)
 	perf, _ := c19perf(c)
 	ssql := streamsql.New(presetOpt(), streamsql.WithDiscardLog(), streamsql.WithCustomPerformance(perf))
+	c19BadFirst(ssql)
 	if err := ssql.Execute("SELECT p, k FROM stream"); err != nil {
 		return [][]string{{"execute-error"}}, "execute-error"
 	}
@@ -575,6 +585,8 @@ func c19free(c Case, rowsPer, slow int) ([][]string, string) {
 }
 
 func (c19) Exec(c Case) [][][]string {
+	c19BadFirstOn = len(c19cfgGet(c, "badfirst")) > 0
+	defer func() { c19BadFirstOn = false }()
 	if len(c.Ops) == 1 && len(c.Ops[0]) == 3 && c.Ops[0][0] == "free" {
 		rowsPer, _ := strconv.Atoi(c.Ops[0][1])
 		slow, _ := strconv.Atoi(c.Ops[0][2])
@@ -597,6 +609,7 @@ func (c19) Exec(c Case) [][][]string {
 	if v := c19cfgGet(c, "badstrat"); len(v) > 0 {
 		perf.OverflowConfig.Strategy = v[0]
 		ssql := streamsql.New(presetOpt(), streamsql.WithDiscardLog(), streamsql.WithCustomPerformance(perf))
+		c19BadFirst(ssql)
 		err := ssql.Execute("SELECT p, k FROM stream")
 		ssql.Stop()
 		if err != nil {
@@ -650,6 +663,7 @@ func (c19) Exec(c Case) [][][]string {
 	// the stream pointer is needed by the consumer's first park: build through Execute, which
 	// starts the consumer goroutine; VerifDataChan is read once r.st is set (the first park may
 	// see r.st == nil, so the held channel is read again below)
+	c19BadFirst(r.ssql)
 	if err := r.ssql.Execute("SELECT p, k FROM stream"); err != nil {
 		return fail("execute-error")
 	}
@@ -742,4 +756,17 @@ func (c19) Exec(c Case) [][][]string {
 	}
 	<-done
 	return obs
+}
+
+// c19BadFirst (cfg `badfirst 1`, set by Exec): the caller's first Execute fails (a statement that does not parse, then one
+// whose WHERE does not compile); the Execute that follows on the same instance must build the stream with the options
+// the instance was created with.
+var c19BadFirstOn bool
+
+func c19BadFirst(s *streamsql.Streamsql) {
+	if !c19BadFirstOn {
+		return
+	}
+	_ = s.Execute("SELECT p, k FROM")
+	_ = s.Execute("SELECT p, k FROM stream WHERE (p > 1")
 }
